@@ -10,7 +10,7 @@ func init() {
 	register(&PropDef{
 		ID: "C08",
 		Gen: func(t *rapid.T, tier string) *world.Plan {
-			p := genPlan(t, genOpts{sched: true, layouts: true, premiums: true, maxCrashes: 1, maxFaults: 1, duration: []int{120, 300}, adapters: 60,
+			p := genPlan(t, genOpts{sched: true, layouts: true, premiums: true, maxCrashes: 1, maxFaults: 1, duration: []int{120, 300}, adapters: 60, clnAdapters: 60,
 				sites: []string{"ln.invoice", "lwallet.open", "btcwallet.open", "store.update"}})
 			return p
 		},
@@ -20,7 +20,7 @@ func init() {
 	register(&PropDef{
 		ID: "C03",
 		Gen: func(t *rapid.T, tier string) *world.Plan {
-			p := genPlan(t, genOpts{sched: true, layouts: true, premiums: true, maxCrashes: 1, maxFaults: 2, maxLN: 1, silence: true, healProb: 60, adapters: 60,
+			p := genPlan(t, genOpts{sched: true, layouts: true, premiums: true, maxCrashes: 1, maxFaults: 2, maxLN: 1, silence: true, healProb: 60, adapters: 60, clnAdapters: 60,
 				sites:      []string{"lwallet.fee", "btc.estimatefee", "lwallet.newaddr", "btcwallet.newaddr", "lwallet.sendraw", "btcwallet.spend", "ln.pay"},
 				faultKinds: []string{"err", "zero", "huge", "errafter"}, inject: []string{"cancel"}, maxInject: 1})
 			for i := range p.Scn.BtcFeePerKw {
